@@ -101,7 +101,7 @@ def c18(tier, rep):
     # queue discipline and partition on the small-step specification, replayed through the real Parser.parse
     n = 5 if tier == "quick" else 6
     cnt, bad, res, behs = L.replay_sequences(n, "LaAlphabet", "ScenarioPrefix", max_errs=2)
-    rep.add_tlc(f"MC_L0[LaAlphabet,ScenarioPrefix,N={n}]", res, f"{cnt} kind sequences replayed; Inv_Fifo, Inv_Partition, Inv_Accepted, Inv_StackIsPath, Inv_Linear")
+    rep.add_tlc(f"MC_L0[LaAlphabet,ScenarioPrefix,N={n}]", res, f"{cnt} kind sequences replayed; Inv_Fifo, Inv_Partition, Inv_Accepted, Inv_StackIsPath, Inv_Linear; step properties " + ", ".join(L.ACTION_PROPERTIES))
     rep.traces += cnt
     for inv in sorted(set(res.invariant_violations)):
         rep.violation({"kind": "spec-invariant", "invariant": inv}, {"engine": "MC_L0", "what": f"{inv} violated", "tlc_tail": res.out[-3000:]})
@@ -208,7 +208,7 @@ def c02(tier, rep):
         for b in behs:
             rep.case(tuple(b["input"]))
         for inv in sorted(set(res.invariant_violations)):
-            if inv in ("Inv_StackIsPath",):
+            if inv in ("Inv_StackIsPath", "Prop_MoveOnlyOnDelivery"):
                 rep.violation({"kind": "spec-invariant", "invariant": inv}, {"engine": "MC_L0", "what": f"{inv} violated", "tlc_tail": res.out[-3000:]})
         for b in bad[:10]:
             rep.violation({"kind": "l0-replay:" + b["field"]}, {"engine": "l0", "what": "real Parser.parse differs from the small-step specification", "detail": b})
